@@ -81,7 +81,7 @@ def builtin(ctx):
         paths = [p for p in paths if p.count("/") <= 3] + rng.sample([p for p in paths if p.count("/") > 3], 150)
     total = 0
     for kind in ("authenticated", "owner_only", "owner_write"):
-        for auth_type in ("none", "htpasswd"):
+        for auth_type in ("none", "htpasswd", "remote_user", "http_x_remote_user", "denyall"):
             verify = auth_type != "none"
             r = load_rights(kind, auth_type)
             reqs = []
